@@ -94,6 +94,27 @@ def build_harness():
     return vf.build_hx(var, "framehdr.c", extra=defs)
 
 
+def cover_sample(rng, leaves, cap, sigpos, nkinds, per_kind=12):
+    """a sample of the generated behaviours that contains every kind of decision (the signature printed by TLC says which kinds
+    a behaviour has) at least per_kind times when that many exist, filled up at random"""
+    if len(leaves) <= cap:
+        return leaves
+    order = list(leaves)
+    rng.shuffle(order)
+    chosen, count = [], [0] * nkinds
+    rest = []
+    for lf in order:
+        sig = lf[1][sigpos]
+        if any((sig >> j) & 1 and count[j] < per_kind for j in range(nkinds)):
+            chosen.append(lf)
+            for j in range(nkinds):
+                count[j] += (sig >> j) & 1
+        else:
+            rest.append(lf)
+    chosen += rest[:max(0, cap - len(chosen))]
+    return sorted(chosen)
+
+
 def leaves_from_tlc(r):
     """REQ lines printed by FrameHdr_mc (Gen = TRUE)"""
     out = []
@@ -157,7 +178,7 @@ def harness_lines(reqs, plans, tables, rng):
     out = ["T %d %d %s" % (t, len(v), " ".join(map(str, v))) for t, v in sorted(tables.items())]
     in_silk = False
     for q in reqs:
-        p = plans[q["id"]]
+        p = plans.get(q.get("id"))
         if q["k"] == "C":
             out.append("C %d %d %d %d %d %d %d %d | %s | %s | %s" % (q["id"], q["len"], q["LM"], q["C"], q["s"], q["e"], q["pre"], q["seed"],
                                                                      " ".join(map(str, p["hdr"])), " ".join(map(str, p["ops"])),
@@ -211,36 +232,62 @@ def which_clause(ev):
 
 
 def judge(ctx, evpath, reqs_by_id, tag, tier):
-    """validate one event file; returns list of rejected (event dict, request)"""
+    """validate an event file; returns (rejected events, ids of drifting events)"""
     n = vf.count_lines(evpath)
     if n == 0:
-        return []
-    nparts = max(1, min(vf.NCPU, n // 150))
-    rej, total = vf.validate_cases(ctx, "FrameHdrTrace", "FrameHdrTrace.cfg", evpath, "G02 " + tag, nparts=nparts, heap="3g")
+        return [], set()
+    nparts = max(1, min(vf.NCPU, n // 120))
+    drifting = set()
+    rej, total = validate(ctx, evpath, "G02 " + tag, nparts, drifting)
     ctx.traces += total - len(rej)
     bad = []
     for p, ln, tr in rej:
-        # validate_cases reports the first rejected line of a chunk: judge the remaining lines of that chunk one by one (bounded)
+        # a chunk reports its first rejected line: judge the lines after it too (bounded)
         lines = open(p).read().splitlines()
-        todo = [ln] if ln else list(range(1, len(lines) + 1))
+        if not ln:
+            bad.append(dict(k="?", raw=tr.out[-800:]))
+            continue
+        bad.append(json.loads(lines[ln - 1]))
+        rest = lines[ln:]
         seen = 0
-        k = ln + 1 if ln else len(lines) + 1
-        bad.append(json.loads(lines[ln - 1]) if ln else dict(k="?", raw=tr.out[-800:]))
-        rest = lines[k - 1:]
-        while rest and seen < 4:
+        while rest and seen < 3:
             seen += 1
             rp = ctx.path("rest_%s_%d.ndjson" % (os.path.basename(p), seen))
             with open(rp, "w") as f:
                 f.write("\n".join(rest) + "\n")
-            r2, t2 = vf.validate_cases(ctx, "FrameHdrTrace", "FrameHdrTrace.cfg", rp, "G02 rest " + tag, nparts=1, heap="3g")
-            if not r2:
+            r2, t2 = validate(ctx, rp, "G02 rest " + tag, 1, drifting)
+            if not r2 or not r2[0][1]:
                 break
             l2 = r2[0][1]
-            if not l2:
-                break
             bad.append(json.loads(rest[l2 - 1]))
             rest = rest[l2:]
-    return bad
+    return bad, drifting
+
+
+def validate(ctx, evpath, what, nparts, drifting):
+    """vf.validate_cases + collection of the DRIFT notes printed by the same TLC pass"""
+    chunks = vf.split_file_lines(evpath, nparts, evpath + ".part")
+    rejected = []
+
+    def one(ch):
+        p, n = ch
+        return ch, vf.tlc("FrameHdrTrace", "FrameHdrTrace.cfg", workers=1, env={"TRACE": p}, timeout=1700, heap="3g",
+                          tag=what.replace(" ", "_") + os.path.basename(p))
+    total = 0
+    for (p, n), r in vf.parallel(one, chunks):
+        if r.error:
+            raise vf.Infra("%s: %s" % (what, r.error))
+        ctx.add_tlc(r, "trace %s %s" % (what, os.path.basename(p)))
+        total += n
+        for pr in r.prints:
+            m = re.match(r'"DRIFT (\d+)"', pr)
+            if m:
+                drifting.add(int(m.group(1)))
+        if r.violation:
+            m = re.search(r"\bl = (\d+)", r.state_dump or r.out)
+            rejected.append((p, int(m.group(1)) if m else 0, r))
+    vf.log("[trace] %-36s lines=%d chunks=%d rejected_chunks=%d" % (what, total, len(chunks), len(rejected)))
+    return rejected, total
 
 
 def scan_events(ctx, evpath, names_seen, plans):
@@ -314,12 +361,16 @@ def run(ctx):
     q = tier == "quick"
     # 1. design theorems
     leaves = []
-    for cfg, what in (("FrameHdr_mc_celt_%s.cfg" % tier, "MDCT header: guards x streams"),
-                      ("FrameHdr_mc_silk_%s.cfg" % tier, "speech header: decoder"),
-                      ("FrameHdr_mc_senc_%s.cfg" % tier, "speech header: encoder mirror")):
-        r = ctx.mc("FrameHdr_mc", cfg, what=what, deadlock=True, workers=8, timeout=1500 if q else 3000, heap="6g")
+    for mod, cfg, what, w in (("FrameHdr_mc", "FrameHdr_mc_celt_%s.cfg" % tier, "MDCT header: guards x streams", 8),
+                              ("FrameHdr_mc", "FrameHdr_mc_silk_%s.cfg" % tier, "speech header: decoder", 4),
+                              ("FrameHdr_mc", "FrameHdr_mc_senc_%s.cfg" % tier, "speech header: encoder mirror", 4),
+                              ("FrameHdr_mc", "FrameHdr_mc_layout.cfg", "LBRR flag layout vs Framing!HasLbrrOf", 4),
+                              ("FrameHdrLap_mc", "FrameHdrLap_mc_%s.cfg" % tier, "Laplace transcription vs SymCodes", 2)):
+        r = ctx.mc(mod, cfg, what=what, deadlock=True, workers=w, timeout=1500 if q else 3000, heap="6g")
         if r.violation:
             raise vf.Infra("FrameHdr design theorem %s violated:\n%s" % (r.violation, r.state_dump[:2500]))
+        if r.distinct < 9:
+            raise vf.Infra("%s explored only %d states (vacuous)" % (cfg, r.distinct))
         leaves += leaves_from_tlc(r)
     nl_c = sum(1 for k, h, v in leaves if k == "C"); nl_s = len(leaves) - nl_c
     OBS["mc_leaves_celt"] = nl_c; OBS["mc_leaves_silk"] = nl_s
@@ -329,18 +380,16 @@ def run(ctx):
     ctx.notes["exhaustive_scope"] = "model side: every symbol stream over the alphabets and budget grid of the FrameHdr_mc_*_%s cfgs; implementation side sampled" % tier
     # 2. requests: the leaves (a deterministic sample when there are many) + seeded random ones
     leaves.sort()
-    cap_c, cap_s = (2500, 500) if q else (30000, 4000)
+    cap_c, cap_s = (1200, 300) if q else (30000, 4000)
     lc = [x for x in leaves if x[0] == "C"]; ls = [x for x in leaves if x[0] == "S"]
-    if len(lc) > cap_c:
-        lc = rng.sample(lc, cap_c)
-    if len(ls) > cap_s:
-        ls = rng.sample(ls, cap_s)
+    lc = cover_sample(rng, lc, cap_c, 6, len(NEED_CELT))
+    ls = cover_sample(rng, ls, cap_s, 2, len(NEED_SILK))
     reqs = []
     rid = 0
     for k, h, v in lc:
         rid += 1
         reqs.append(dict(k="C", id=rid, len=h[0], LM=h[1], C=h[2], s=h[3], e=h[4], pre=h[5], vals=v, seed=rng.randrange(1, 1 << 30)))
-    nrc, nrs = (2500, 700) if q else (40000, 9000)
+    nrc, nrs = (1300, 450) if q else (40000, 9000)
     for i in range(nrc):
         rid += 1
         reqs.append(celt_request(rng, rid, near_end=(i % 3 == 0)))
@@ -367,9 +416,7 @@ def run(ctx):
     areqs = alloc_requests()
     ctx.notes["requests"] = dict(celt=len(reqs), silk=len(sreqs), alloc=len(areqs))
     # 3. plans
-    plans, tables = plan(ctx, reqs, "celt")
-    p2, t2 = plan(ctx, sreqs, "silk")
-    plans.update(p2)
+    plans, tables = plan(ctx, reqs + sreqs, "all")
     # 4. execute on the current tree
     exe = build_harness()
     nproc = 8 if q else 12
@@ -397,17 +444,24 @@ def run(ctx):
             data = data[:data.rfind(b"\n") + 1]
             with open(op, "wb") as f:
                 f.write(data)
+            if re.search(r"error in \S*(/silk/enc|/silk/encode_|/celt/entenc)", err):
+                # an assertion of the WRITER's library functions on the harness's synthetic encoder state says nothing about the decoders
+                raise vf.Infra("hx_framehdr: the packet writer aborted (input domain of the harness): " + err[-1200:])
             ctx.violation("hx_framehdr aborted rc=%d (decoder abort/hang on a packet written in the model's order; C01 totality): %s" % (rc, err[-1500:]),
                           replay_src=None, replay_text=replay_text_for_abort(ip, op))
-    # 5. judge
-    for ip, op, rc, err in outs + souts + aouts:
-        n = scan_events(ctx, op, names_seen, plans)
-        ctx.evaluations += n
-        if n:
-            ctx.sample(dict(event=vf.file_line(op, min(n, 2))[:500]))
-        bad = judge(ctx, op, by_id, os.path.basename(op), tier)
-        for ev in bad:
-            report(ctx, exe, ev, by_id, tables)
+    # 5. judge: all recorded events in one parallel TLC pass
+    allev = ctx.path("events_all.ndjson")
+    with open(allev, "w") as fo:
+        for ip, op, rc, err in outs + souts + aouts:
+            n = scan_events(ctx, op, names_seen, plans)
+            ctx.evaluations += n
+            if n:
+                ctx.sample(dict(event=vf.file_line(op, min(n, 2))[:500]), limit=6)
+            with open(op) as fi:
+                fo.write(fi.read())
+    bad, drifting = judge(ctx, allev, by_id, "events", tier)
+    for ev in bad:
+        report(ctx, exe, ev, by_id, tables)
     # 6. vacuity guard on what was executed
     miss = [n for n in NEED_CELT if "C:" + n not in names_seen] + [n for n in NEED_SILK if "S:" + n not in names_seen]
     if miss and not ctx.violations:
@@ -415,15 +469,9 @@ def run(ctx):
     ctx.notes["decisions_seen"] = sorted(names_seen)
     # 7. stricter sub-model: SPEC-DRIFT only
     if not ctx.violations:
-        nd = 0
-        for ip, op, rc, err in souts:
-            if rc != 0 or vf.count_lines(op) == 0:
-                continue
-            rej, total = vf.validate_cases(ctx, "FrameHdrTrace", "FrameHdrDrift.cfg", op, "G02 drift " + os.path.basename(op), nparts=2, heap="3g")
-            for p, ln, tr in rej:
-                nd += 1
-                if nd <= 3:
-                    ctx.spec_drift("FrameHdr", "FEC decoding of a packet without LBRR data for the mid channel is not sample-identical to concealment: %s" % vf.file_line(p, ln)[:300])
+        for i in sorted(drifting)[:3]:
+            ctx.spec_drift("FrameHdr", "FEC decoding of a packet that carries LBRR data for the mid channel returned the concealment samples: request %s" %
+                           json.dumps(by_id.get(i, {}))[:300])
     ctx.notes["observed"] = OBS
 
 
@@ -501,7 +549,7 @@ def rerun(ctx, exe, qs, tables_unused, tag):
             bad.append(dict(k="abort", rc=rc, err=err[-600:]))
             continue
         ctx.evaluations += vf.count_lines(op)
-        bad += judge(ctx, op, {}, tag, "quick")
+        bad += judge(ctx, op, {}, tag, "quick")[0]
     return bad
 
 
